@@ -121,9 +121,14 @@ func ElementToJSONString(elem r.Element) (*value.String, error) {
 
 // writeJSONValue - encode an element; object members follow the key order of the HashMap
 func writeJSONValue(buf *bytes.Buffer, elem r.Element, depth int) error {
-	// the same bound as for parsing: what is written here must be readable by 解析JSON
-	if depth > maxJSONDepth {
-		return fmt.Errorf("exceeded max depth %d", maxJSONDepth)
+	// the same bound as for parsing: what is written here must be readable by 解析JSON.
+	// Like there, it is the lists and dictionaries that count as levels, not the value
+	// that stands inside the innermost of them
+	switch elem.(type) {
+	case *value.Array, *value.HashMap:
+		if depth > maxJSONDepth {
+			return fmt.Errorf("exceeded max depth %d", maxJSONDepth)
+		}
 	}
 	switch vv := elem.(type) {
 	case *value.Array:
